@@ -430,6 +430,26 @@ Arguments Ok {A} a.
 Arguments Panicked {A} evs.
 Arguments OutOfFuel {A}.
 
+(* the loop `refs.iter().for_each(|(heap_idx, clsi)| { self.drop_closure(clsi); heap_release(heap_idx) })` of
+   drop_closure; [rec] is the recursive call *)
+Fixpoint drop_refs (rec : mach -> key -> outcome (mach * list event)) (m : mach)
+    (refs : list (option key * key)) (acc : list event) : outcome (mach * list event) :=
+  match refs with
+  | [] => Ok (m, acc)
+  | (hk, ck) :: rest =>
+      match rec m ck with
+      | Ok (m2, e2) =>
+          let (m3, e3) :=
+            match hk with
+            | Some h => heap_release_ev m2 h
+            | None => (m2, [])
+            end in
+          drop_refs rec m3 rest (acc ++ e2 ++ e3)
+      | Panicked e2 => Panicked (acc ++ e2)
+      | OutOfFuel => OutOfFuel
+      end
+  end.
+
 (* drop_closure: `closures.get_mut(id).unwrap()` panics on a stale id; refcount -= 1; at 0: collect the
    closure-typed closed upvalues, drop each referenced closure (and release its heap wrapper), remove. *)
 Fixpoint drop_closure (fuel : nat) (up : upvalue_oracle) (m : mach) (id : key) : outcome (mach * list event) :=
@@ -448,24 +468,7 @@ Fixpoint drop_closure (fuel : nat) (up : upvalue_oracle) (m : mach) (id : key) :
           if rc' =? 0 then
             let raws := up id in
             let (refs, e1) := resolve_refs m1 raws in
-            let fix go (m : mach) (refs : list (option key * key)) (acc : list event)
-                : outcome (mach * list event) :=
-              match refs with
-              | [] => Ok (m, acc)
-              | (hk, ck) :: rest =>
-                  match drop_closure fuel' up m ck with
-                  | Ok (m2, e2) =>
-                      let (m3, e3) :=
-                        match hk with
-                        | Some h => heap_release_ev m2 h
-                        | None => (m2, [])
-                        end in
-                      go m3 rest (acc ++ e2 ++ e3)
-                  | Panicked e2 => Panicked (acc ++ e2)
-                  | OutOfFuel => OutOfFuel
-                  end
-              end in
-            match go m1 refs (e0 ++ ref_events raws ++ e1) with
+            match drop_refs (drop_closure fuel' up) m1 refs (e0 ++ ref_events raws ++ e1) with
             | Ok (m4, e4) =>
                 Ok (mkMach (fst (sm_remove (m_cl m4) id)) (m_hp m4), e4 ++ [ev SC EFree id (Some 0)])
             | other => other
